@@ -118,6 +118,17 @@ P("C12", "integer to text to integer is exact for every value, width and base", 
   exhaustive={"quick": "all 65536 short and 65536 unsigned short values x bases 2..36 x 2 cases", "thorough": "all 65536 short and 65536 unsigned short values x bases 2..36 x 2 cases"},
   dbits={"quick": 22, "thorough": 26})
 
+P("C13", "floating-point text equals the C library rendering for every value and precision", "floats",
+  level_text=("runtime monitoring: ST::format of float/double (all four notations, sign flag, precisions 0..1000, widths/alignments/pads), from_float/from_double, string_stream << and "
+              "to_float/to_double run under ASan+UBSan and are compared with snprintf / strtod / strtof of this platform on the same value or bytes; a sweep drives renderings of every length "
+              "around the 64-byte scratch buffers (62..66 and far beyond), the assertion observer and ASan watch for aborts and overruns; parsing includes decimal texts right beside float rounding ties"),
+  technique="differential runtime monitoring with the platform C library as oracle under ASan+UBSan, directed at scratch-buffer length boundaries",
+  rule=("formatting cases are (format spec, value) pairs, parsing cases are texts; values are directed (zeros, subnormals, extremes, inf, NaN, powers of 10 and 2 and their neighbours) and random bit patterns; "
+        "distinct by (spec text, value bits) resp. text bytes; evaluations count library calls; nothing trivial"),
+  assumptions=["glibc snprintf/strtod/strtof are the oracle, as the statement specifies", "precisions for which snprintf itself fails (> INT_MAX total) are not generated",
+               "zero padding of floats is only generated where no sign is present and the padding goes to the left (the statement does not fix its position relative to a sign)"],
+  dbits={"quick": 22, "thorough": 26})
+
 _PENDING = "check not registered yet in this revision of /verif (harness under construction; nothing is claimed)"
 for _p in ["C%02d" % i for i in range(1, 21)]:
     if _p not in PROPS:
